@@ -1,5 +1,5 @@
 """C07 — Listings are complete, ordered, correctly grouped and paginate without loss (DESIGN.md §7 C07)."""
-import subprocess, json
+import subprocess, json, os, time
 from vlib import common, coq, gobuild
 from vlib.common import coq_str, coq_bool, coq_list
 
@@ -425,11 +425,16 @@ def run_http(chk, built, tref, treedefs):
                 cps = sorted(c.findtext("Prefix") for c in ld.xml().findall("CommonPrefixes")) if ld.status == 200 and ld.xml() is not None else None
                 want_cps = sorted({k.split("/")[0] + "/" for k in left if "/" in k})
                 onfs = []
-                for dp, dn, fn in os.walk(os.path.join(site.root, bucket)):
-                    rel = os.path.relpath(dp, os.path.join(site.root, bucket))
-                    if rel == "." or rel.split(os.sep)[0] == ".sgwtmp": continue
-                    if not any(True for _d, _dn, f2 in os.walk(dp) if f2) and not any((rel + "/") == k or k.startswith(rel + "/") for k in left):
-                        onfs.append(rel + "/")
+                for _attempt in range(5):
+                  # (an upload whose client went away is cleaned up by its handler a moment after the next request was answered)
+                  onfs = []
+                  for dp, dn, fn in os.walk(os.path.join(site.root, bucket)):
+                      rel = os.path.relpath(dp, os.path.join(site.root, bucket))
+                      if rel == "." or rel.split(os.sep)[0] == ".sgwtmp": continue
+                      if not any(True for _d, _dn, f2 in os.walk(dp) if f2) and not any((rel + "/") == k or k.startswith(rel + "/") for k in left):
+                          onfs.append(rel + "/")
+                  if not onfs: break
+                  time.sleep(0.4)
                 meta = {"config": label, "versioning_enabled": venabled, "history": hist, "remaining_keys": sorted(left), "listed": listed, "common_prefixes": cps,
                         "directories_without_keys": sorted(onfs)}
                 chk.case(("putdel", label, tuple(hist)), True); chk.traces += 1
